@@ -81,6 +81,14 @@ def run(R, pid, tier, seed):
             R.add("%s/native-serve-prologue" % pid, "violated", confirmed=True, replay_path=sp["replay_path"], key=sp["key"], detail=sp["detail"])
         else:
             R.add("%s/native-serve-prologue" % pid, "holds", queries=0, solver_s=0.0, detail=sp["detail"] + "; validation, not the deciding step")
+        try:
+            ss = _hn.serve_session_check(R, "%s/serve" % pid, "%s/serve/session" % pid)
+            if ss["confirmed"]:
+                R.add("%s/native-serve-session" % pid, "violated", confirmed=True, replay_path=ss["replay_path"], key=ss["key"], detail=ss["detail"])
+            else:
+                R.add("%s/native-serve-session" % pid, "holds", queries=0, solver_s=0.0, detail=ss["detail"] + "; validation, not the deciding step")
+        except hublib.Inconclusive as e:
+            R.add("%s/native-serve-session" % pid, "inconclusive", detail=str(e)[:300])
         _guard(R, pid, "handle_put", lambda: hublib.put_obligations(ctx, R, prover, pid, ncap))
     # the ORDER of the real system calls (strace) of a commit / conflict / delete is checked on every run too: it holds the line when a
     # change makes the symbolic side inconclusive
